@@ -84,6 +84,7 @@ class Zone:
         self.tys = tys or {}
         self.atoms = [ZERO]
         self.ix = {ZERO: 0}
+        self.raw = []  # every linear fact  sum + c <= 0  as given (for syntactic entailment)
         self.cons = []  # (i, j, c): atom_i - atom_j <= c
         self.diseq = []  # (lin) != 0
         self.closed = None
@@ -103,6 +104,7 @@ class Zone:
     def add_le0(self, lin):
         d, c = lin
         items = [(x, k) for x, k in d.items() if k != 0]
+        self.raw.append((frozenset(items), c))
         if not items:
             if c > 0:
                 self.unsat = True
@@ -385,6 +387,10 @@ class Zone:
     def _entailed_le0(self, lin, dist):
         d, c = lin
         items = [(x, k) for x, k in d.items() if k != 0]
+        key = frozenset(items)
+        for (k2, c2) in self.raw:
+            if k2 == key and c <= c2:
+                return True  # the same linear form with a weaker constant is a given fact
         if len(items) > 2:
             # pair atoms with opposite coefficients and replace the pair by its derived upper bound
             items = list(items)
